@@ -58,9 +58,12 @@ func (ip *Interp) asciiCase(s Str, lower bool) Str {
 	return strOf(out)
 }
 
-var titleCaser = cases.Title(language.Und)
+// newTitleCaser: a cases.Caser is stateful and must not be shared between goroutines
+// (workers): every interpreter gets its own.
+func newTitleCaser() cases.Caser { return cases.Title(language.Und) }
 
 func registerStd2(ip *Interp) {
+	titleCaser := newTitleCaser()
 	for _, n := range []string{"internal/stringslite.Clone", "strings.Clone", "bytes.Clone"} {
 		ip.reg(n, func(ip *Interp, fr *frame, a []Value) Value {
 			if sl, ok := a[0].(Slice); ok {
@@ -164,7 +167,7 @@ func TitleAlnumModel(c *sym.Ctx, in []*sym.Term) Str {
 }
 
 // TitleNative is the real x/text function (used for concrete inputs and by selftest).
-func TitleNative(s string) string { return titleCaser.String(s) }
+func TitleNative(s string) string { return newTitleCaser().String(s) }
 
 // StrBytes exposes the byte terms of a string value (selftest).
 func StrBytes(s Str) []*sym.Term { return s.B }
